@@ -14,6 +14,7 @@ import dataclasses
 import itertools
 import json
 import os
+import sys
 
 import numpy as np
 import warp as wp
@@ -71,7 +72,12 @@ class FallbackRun(host.HostRun):
     nsym = 0
     results = []
     fills = (0.0, 3.25)
+    def _same(x, y):
+      return all((p is None and q is None) or (p is not None and q is not None and p.shape == q.shape and np.array_equal(p, q, equal_nan=p.dtype.kind == "f")) for p, q in zip(x, y))
+
     for fill in fills:
+     prev_res = None
+     for attempt in range(8):
       real = []
       for a in args:
         if isinstance(a, host.SymArr):
@@ -109,8 +115,26 @@ class FallbackRun(host.HostRun):
         np.savez(f"/tmp/c12dump_{fill}.npz", **{f"a{j}": r.numpy() for j, (a, r) in enumerate(zip(args, real)) if isinstance(a, host.SymArr)})
       if os.environ.get("C12_DUMP") and os.environ["C12_DUMP"] in kernel.key:
         print("[dbg] fill", fill, "outputs", [np.round(r.numpy().reshape(-1)[:6], 3).tolist() for r in real[ni:] if hasattr(r, "numpy")], "tiled_kw", tiled_kw, "dim", dim, flush=True)
-      results.append([r.numpy().copy() if isinstance(a, host.SymArr) else None for a, r in zip(args, real)])
-      if nsym == 0:
+      this_res = [r.numpy().copy() if isinstance(a, host.SymArr) else None for a, r in zip(args, real)]
+      # the real implementation must be a function of its inputs: accept a result only when two consecutive executions on
+      # identical inputs agree bit for bit (real tile kernels run from this harness were observed to return garbage in a
+      # fraction of launches; see DESIGN 11.4)
+      if prev_res is None or not _same(prev_res, this_res):
+        if prev_res is not None:
+          self.unstable = getattr(self, "unstable", 0) + 1
+        prev_res = this_res
+        if attempt == 7:
+          raise RuntimeError(f"real kernel {kernel.key} does not give reproducible results on identical inputs")
+        continue
+      results.append(this_res)
+      if os.environ.get("C12_DEBUG"):
+        for j, (a, r) in enumerate(zip(args, real)):
+          if isinstance(a, host.SymArr) and r.numpy().dtype.kind == "f":
+            x = r.numpy()
+            if not np.all(np.isfinite(x)) or np.abs(x).max() > 1e15:
+              print(f"[c12-debug] fallback {kernel.key} fill {fill} arg {j} ({'in' if j < ni else 'out'}) {kernel.adj.args[j].label}: non-finite/huge after launch; dim {dim} tiled {tiled_kw}", file=sys.stderr, flush=True)
+      break
+     if nsym == 0:
         break
     symcells = {}
     if len(results) == 2:
@@ -214,6 +238,8 @@ def _real_host_call(fn, m, arrs, make_real_data, log=None):
   nsym = 0
   pre32 = []
   for fill in FILLS:
+   prev_res = None
+   for attempt in range(8):
     d = make_real_data()
     pre = {}
     for n, sa in arrs.items():
@@ -238,7 +264,25 @@ def _real_host_call(fn, m, arrs, make_real_data, log=None):
       rn = real.numpy()
       real.assign(buf.reshape(rn.shape).astype(rn.dtype))
       pre[n] = real.numpy().reshape(c.size, c.ncomp).astype(np.float64)
-    pre32.append(pre)
+    if os.environ.get("C12_DEBUG"):
+      import dataclasses as _dc
+      def _scan(obj, prefix):
+        for f in _dc.fields(obj):
+          v = getattr(obj, f.name)
+          if _dc.is_dataclass(v):
+            _scan(v, prefix + f.name + ".")
+          elif hasattr(v, "numpy") and getattr(v, "size", 0):
+            a = v.numpy()
+            if a.dtype.kind == "f" and not np.all(np.isfinite(a)):
+              idx = np.argwhere(~np.isfinite(a))[:6].tolist()
+              extra = ""
+              if prefix == "d.efc." and a.ndim >= 2:
+                rows = sorted({i[1] for i in idx})
+                extra = f" rows {rows} type {[int(obj.type.numpy()[0, r]) for r in rows]} id {[int(obj.id.numpy()[0, r]) for r in rows]} nefc {d.nefc.numpy().tolist()} nacon {d.nacon.numpy().tolist()}"
+              print(f"[c12-debug] non-finite INPUT {prefix}{f.name} shape {a.shape} at {idx}{extra}", file=sys.stderr, flush=True)
+            elif a.dtype.kind == "f" and np.abs(a).max() > 1e20:
+              print(f"[c12-debug] huge INPUT {prefix}{f.name} max {np.abs(a).max()} in_arrs={prefix[2:] + f.name in arrs}", file=sys.stderr, flush=True)
+      _scan(d, "d."); _scan(m, "m.")
     fn(m, d)
     res = {}
     for n, sa in arrs.items():
@@ -249,8 +293,16 @@ def _real_host_call(fn, m, arrs, make_real_data, log=None):
       if obj is None:
         continue
       res[n] = getattr(obj, attr).numpy().reshape(c.size, c.ncomp).astype(np.float64)
+    # accept a result only when two consecutive executions on identical inputs agree bit for bit (see FallbackRun._real)
+    if prev_res is None or any(not np.array_equal(prev_res[n], res[n], equal_nan=True) for n in res):
+      prev_res = res
+      if attempt == 7:
+        raise RuntimeError(f"real {fn.__name__} does not give reproducible results on identical inputs")
+      continue
+    pre32.append(pre)
     outs.append(res)
-    if nsym == 0:
+    break
+   if nsym == 0:
       break
   ntaint = 0
   tainted = []
@@ -277,6 +329,8 @@ def _real_host_call(fn, m, arrs, make_real_data, log=None):
           ntaint += 1
           tainted.append(f"{n}[{i}]")
           c.d[k][i] = z3.Const(f"stale:via:{fn.__name__}:{n}[{i}]#{k}", c.sort)
+  if os.environ.get("C12_DEBUG"):
+    print(f"[c12-debug] real {fn.__name__}: nsym {nsym} ntaint {ntaint} tainted {tainted[:8]} nefc {[o.get('nefc') for o in outs]} qacc {[o.get('qacc', np.zeros((0, 1)))[:, 0].tolist() for o in outs]} niter {[o.get('solver_niter') for o in outs]}", file=sys.stderr, flush=True)
   if log:
     log(f"real {fn.__name__}: {nsym // max(1, len(outs))} stale scalars in its Data, {ntaint} result cells differ between {len(outs)} stale fills {tainted[:6]}")
   return ntaint
@@ -581,6 +635,14 @@ def main(tier, seed, only=None):
   for mn, vn in combos:
     units.append(unit_forward(mn, vn, "forward"))
   units.append(unit_forward("weld", "sparse-newton-ell", "forward", only_stale=KNOWN_LAGGED))
+  # dense Newton Hessian assembly (tile kernels, executed above by the real implementation under three stale fills): the
+  # same claim decided symbolically -- ctx.h is independent of every efc row >= nefc (stale D / J / state) -- with the
+  # block-collective tile interpreter (units shared with C06)
+  from checks import c06
+
+  units += [("hessian/leaves", c06.unit_hessian_leaves), c06.unit_hessian(2, 2, 4, False), c06.unit_hessian(2, 2, 4, True)]
+  if tier == "thorough":
+    units += [c06.unit_hessian(3, 4, 6, False, nC=4), c06.unit_hessian(2, 16, 3, False)]
   if only:
     units = [u for u in units if any(o in u[0] for o in only)]
   return report.run_check(PID, units, tier, seed, unit_timeout=600 if tier == "quick" else 1800)
